@@ -94,6 +94,12 @@ CHECKS = {
         "note": "trusts the driver's 30-line calendar (datetime as second opinion for years 1..9999), the typed codec, the reading of 'to the microsecond' as < 1 us + 2 ulp + 1 ns; TZ=UTC pinned; years +-9999 observed, not judged",
         "technique": "runtime monitoring: reference-model monitor (independent calendar) over batched typed inputs",
     },
+    "C06": {
+        "text": "Held on the executions observed: per quick run ~40k (thorough ~355k) (program, input) execution phases, delimited by marker system calls of the helper and recorded by strace -f, covering all natives and prelude definitions of the current tree x 26 path/URL/command-like values (as input, as each argument, as literals, in path/update/interpolation contexts), ~54 adversarial documents + mutations through every decoder (XML DOCTYPE/entities/PI/XInclude, YAML tags/aliases/merge keys, CBOR tags, TOML, CSV/TSV), the manual's examples, time filters under five TZ settings; plus 388 (thorough 1219) traced whole runs of the real binary incl. named-file, TZ and --in-place cases: no forbidden system call (write/create opens, reads outside the allow-list, rename/link/unlink/chmod..., network, exec/fork) and no change of canary files (content/mtime/inode/atime) or directory listings. The recorder is self-tested on every run against a deliberately misbehaving process; `jaq -n repl` is the positive control.",
+        "design_ref": "DESIGN.md §4 C06",
+        "note": "trusts strace -f completeness for the traced classes; the helper's marker statx calls enclose exactly one execution; 'uses a zone filter' is decided by program text; runtime noise restricted to read-only /proc,/sys,/dev,.so opens learned from control runs of `.`; I/O through an fd opened before the phase is judged only by its reads/writes",
+        "technique": "runtime monitoring: system-call trace policy automaton (strace) over marker-delimited execution phases + canary files as second observation",
+    },
     "C08": {
         "text": "Held on the executions observed: whole comparison matrices over pools of typed values (every number representation of equal values, representation boundaries, text/byte strings, objects in different insertion orders) computed by the real interpreter, compared with the manual's order and checked model-free for trichotomy, antisymmetry and transitivity; sort/unique/group_by/min/max/bsearch/array-minus checked against the same order; model-equal values substituted for each other in 20 lookup/dedup contexts. Bounded by the pools; no proof.",
         "design_ref": "DESIGN.md §4 C08",
